@@ -177,4 +177,23 @@ theorem C01_handle_value_alive (K N T : Nat) (hK : 0 < K) (cfg : Cfg) (progs : N
     1 ≤ ((run (State.initial cfg progs) sched).sh.heap a).cnt :=
   handle_value_counted K N T hK cfg progs sched he hf a ha h hh hreg
 
+/-- a guard that owns its reference (no debt) keeps the value alive -/
+theorem C01_owned_guard_value_alive (K N T : Nat) (hK : 0 < K) (cfg : Cfg) (progs : Nat → List (String × Op))
+    (sched : List (Nat × Bool)) (he : EnvRun0 K N T (State.initial cfg progs) sched)
+    (hf : (run (State.initial cfg progs) sched).sh.fault = none) (a : Nat) (ha : a ≠ 0)
+    (g : Nat) (hg : g < N) (gd : Guard) (hreg : (run (State.initial cfg progs) sched).sh.greg g = some gd)
+    (hp : gd.ptr = a) (hd : gd.debt = none) :
+    1 ≤ ((run (State.initial cfg progs) sched).sh.heap a).cnt :=
+  owned_guard_counted K N T hK cfg progs sched he hf a ha g hg gd hreg hp hd
+
+/-- the value a writer has replaced is alive for the whole of the writer's walk (it is released
+    only afterwards: `release_only_after_walk`) -/
+theorem C01_replaced_value_alive_during_walk (K N T : Nat) (hK : 0 < K) (cfg : Cfg) (progs : Nat → List (String × Op))
+    (sched : List (Nat × Bool)) (he : EnvRun0 K N T (State.initial cfg progs) sched)
+    (hf : (run (State.initial cfg progs) sched).sh.fault = none) (old : Nat) (ha : old ≠ 0)
+    (t : Nat) (ht : t < T) (c out : Nat) (isStore : Bool) (pp : PP)
+    (hop : ((run (State.initial cfg progs) sched).th t).op = .swapPay c out old isStore pp) :
+    1 ≤ ((run (State.initial cfg progs) sched).sh.heap old).cnt :=
+  replaced_value_counted_during_walk K N T hK cfg progs sched he hf old ha t ht c out isStore pp hop
+
 end C01
